@@ -109,6 +109,35 @@ def tree(v):
     return _unorder(vc.to_json(v))
 
 
+def py_equal(a, b):
+    """Equality of a decoded value `b` with the expected value `a` as the property words it: Python
+    equality (so `True == 1`, a dict is unordered), except that floats are compared by bit pattern (NaN
+    payloads, the sign of zero), and a list is only equal to a list, a dict to a dict."""
+    if isinstance(a, float) and isinstance(b, float):
+        return struct.pack('>d', a) == struct.pack('>d', b)
+    if isinstance(a, list):
+        return isinstance(b, list) and len(a) == len(b) and all(py_equal(x, y) for x, y in zip(a, b))
+    if isinstance(a, dict):
+        if not isinstance(b, dict) or len(a) != len(b):
+            return False
+        rest = list(b.items())
+        for k, v in a.items():
+            for i, (k2, v2) in enumerate(rest):
+                if py_equal(k, k2) and py_equal(v, v2):
+                    del rest[i]
+                    break
+            else:
+                return False
+        return True
+    if isinstance(a, (list, dict)) != isinstance(b, (list, dict)):
+        return False
+    try:
+        return bool(a == b) and isinstance(b, (bool, int, float, str, type(None))) == isinstance(
+            a, (bool, int, float, str, type(None)))
+    except Exception:      # noqa: BLE001
+        return False
+
+
 def _unorder(t):
     import json
     if isinstance(t, dict):
@@ -136,11 +165,7 @@ def roundtrip_failure(sig, pvs, expected, fds_expected, off, le):
         return ('unmarshal raised %s on the bytes marshal produced' % u[1], canon_unmarshal(u))
     if u[1] != n:
         return ('unmarshal consumed %d bytes, marshal produced %d' % (u[1], n), canon_unmarshal(u))
-    try:
-        same = tree(u[2]) == tree(expected)
-    except ValueError:
-        same = False
-    if not same:
+    if not py_equal(expected, u[2]):
         return ('decoded value differs from the encoded one', canon_unmarshal(u))
     if [repr(x) for x in oob] != [repr(x) for x in fds_expected]:
         return ('descriptor list after marshal is not the descriptors in wire order', canon_marshal(r))
